@@ -25,6 +25,10 @@ func main() {
 	case "C11":
 		runProp(cfg, rep, genReferences, checkReferences, 300, 5000, 6, 12)
 	case "C10":
+		if cfg.Mode == "inmemory" {
+			runC10InMemory(cfg, rep)
+			break
+		}
 		runProp(cfg, rep, genReverts, func(o *Observed) []Finding {
 			fs := checkReverts(o)
 			for _, f := range checkNoDoubleSpend(o) {
@@ -283,6 +287,14 @@ func runC06(cfg *vc.Config, rep *vc.Report) {
 		rep.Max("max_batch_size", int64(max))
 		account(rep, cfg, -2, 0, &Scenario{Kind: "big-batch"}, run, checkAckPersist(run.Obs))
 		rep.Inc("batch_boundary_scenarios")
+	}
+	if cfg.Mode == "closestorm" {
+		cfg.Cases(300, 10000, func(i int, r *vc.Rand) {
+			run := runCloseStorm(r.Fork())
+			rep.Inc("closestorm_rounds")
+			account(rep, cfg, i, 0, &Scenario{Kind: "closestorm"}, run, checkAckPersist(run.Obs))
+		})
+		return
 	}
 	if cfg.Mode == "failstorm" {
 		// store failures while many writers keep the runner busy (free-running): whatever is acknowledged must be persisted
